@@ -54,6 +54,11 @@ Proof.
     generalize 0%N. induction (ops_of (sc_instrs c) i) as [|e l IH]; intros acc; simpl; auto.
     rewrite (H e) by (simpl; auto). apply IH. intros v Hv. apply H. simpl; auto.
   - destruct (ops_of (sc_instrs c) i); auto. rewrite (H n) by (simpl; auto). reflexivity.
+  - assert (E : fold_left (fun acc v => N.lor acc (m v)) (ops_of (sc_instrs c) i) 0%N =
+                fold_left (fun acc v => N.lor acc (m' v)) (ops_of (sc_instrs c) i) 0%N).
+    { generalize 0%N. induction (ops_of (sc_instrs c) i) as [|e l IH]; intros acc; simpl; auto.
+      rewrite (H e) by (simpl; auto). apply IH. intros v Hv. apply H. simpl; auto. }
+    cbv zeta. rewrite E. reflexivity.
 Qed.
 
 (* a loop through a phi: v0 = gen; v1 = phi(v0, v2); v2 = v1 + gen *)
